@@ -8,6 +8,7 @@ import (
 	"math/big"
 	"os"
 	"path/filepath"
+	"sort"
 	"strconv"
 	"strings"
 )
@@ -54,14 +55,19 @@ type gfTarget struct {
 	file  string   // path below the repository root
 	prog  string   // Coq name of the program (list of functions)
 	funcs []string // "Name" or "Recv.Name"
+	// traced: every external call is recorded in the ghost list "$trace" (callee, integer arguments) and gets
+	// the running call number "$n" as an extra last argument, so the oracle of the bridge can answer every
+	// call differently (effects) and the bridge can state the SEQUENCE of calls the function makes.
+	traced bool
 }
 
 var gfTargets = []gfTarget{
-	{"math", "lib/math/gcd_lcm.go", "gen_prog_math", []string{"GCD", "GCDM", "LCM", "LCMM"}},               // C15
-	{"mp", "lib/mp/map.go", "gen_prog_mp", []string{"calcIndex"}},                                          // C13, C19
-	{"httpgun", "components/guns/http/base.go", "gen_prog_httpgun", []string{"autotag"}},                   // C10
-	{"istep", "core/schedule/instance_step.go", "gen_prog_istep", []string{"NewInstanceStep"}},             // C12
-	{"waiter", "core/coreutil/waiter.go", "gen_prog_waiter", []string{"Waiter.IsSlowDown", "Waiter.Wait"}}, // C04
+	{"math", "lib/math/gcd_lcm.go", "gen_prog_math", []string{"GCD", "GCDM", "LCM", "LCMM"}, false},               // C15
+	{"mp", "lib/mp/map.go", "gen_prog_mp", []string{"calcIndex"}, false},                                          // C13, C19
+	{"httpgun", "components/guns/http/base.go", "gen_prog_httpgun", []string{"autotag"}, false},                   // C10
+	{"istep", "core/schedule/instance_step.go", "gen_prog_istep", []string{"NewInstanceStep"}, false},             // C12
+	{"waiter", "core/coreutil/waiter.go", "gen_prog_waiter", []string{"Waiter.IsSlowDown", "Waiter.Wait"}, false}, // C04
+	{"instance", "core/engine/instance.go", "gen_prog_instance", []string{"instance.Run"}, true},                   // C03
 }
 
 // constructors whose single composite-literal argument wraps the value that is returned
@@ -74,7 +80,25 @@ var gfQualConst = map[string]string{
 }
 
 // package-qualified functions that are external calls (answered by the oracle of the bridge)
-var gfExternal = map[string]bool{"strconv.Atoi": true, "time.Now": true, "time.NewTimer": true}
+var gfExternal = map[string]bool{"strconv.Atoi": true, "time.Now": true, "time.NewTimer": true,
+	"netsample.DiscardedShootSample": true}
+
+// package-qualified constructors of opaque values: `x := ctor(args)` declares x opaque (only method calls
+// on it are possible) and is an external call without arguments
+var gfOpaqueCtor = map[string]bool{"coreutil.NewWaiter": true}
+
+// build-time switches read as inputs
+var gfQualInput = map[string]bool{"tag.Debug": true}
+
+// logging is not part of the modelled behaviour: calls x.log.Debug(...) etc. are dropped
+func gfIsLogCall(name string) bool {
+	for _, suf := range []string{".log.Debug", ".log.Info", ".log.Warn", ".log.Error"} {
+		if strings.HasSuffix(name, suf) {
+			return true
+		}
+	}
+	return false
+}
 
 // external calls that arm a timer: the duration is also stored in the ghost variable "$timer"
 func gfArmsTimer(name string) bool {
@@ -118,6 +142,8 @@ type gfFile struct {
 	consts map[string]ast.Expr      // package-level constants of the directory
 	decls  map[string]*ast.FuncDecl // "Name" / "Recv.Name"
 	inProg map[string]bool          // plain function names translated in this program
+	errVars map[string]int          // package-level `var x = errors.New(...)`: distinct non-nil error codes
+	traced  bool
 }
 
 type gfFn struct {
@@ -137,6 +163,19 @@ type gfFn struct {
 	inSel   int
 	nres    int
 	timer   bool // the body arms a timer: ghost variable "$timer" = the armed duration
+	// traced mode (see gfTarget.traced)
+	fnDefers []string        // statements of the function-level `defer func(){...}()`, run before every return
+	locals   []string        // every variable declared anywhere in the body, in order (pre-declared at the top)
+	localK   map[string]gfKind
+	nck      int             // temporaries "$c<k>" of conditions that contain calls
+	closure  *gfClosure      // set while the body of an immediately invoked func literal is translated
+}
+
+// an immediately invoked `x := func() T { ... }()`: the body is inlined; `return e` becomes `x = e` followed by the
+// deferred calls registered so far; the statements after an `if c { ...; return e }` become its else branch
+type gfClosure struct {
+	target string
+	defers []string
 }
 
 func (t *gfFn) errf(n ast.Node, format string, a ...interface{}) error {
@@ -169,7 +208,18 @@ func (t *gfFn) declare(n ast.Node, name string, k gfKind) error {
 		return t.errf(n, "declaration of %s shadows a variable of an enclosing scope", name)
 	}
 	cur[name] = k
+	t.noteLocal(name, k)
 	return nil
+}
+
+func (t *gfFn) noteLocal(name string, k gfKind) {
+	if t.localK == nil {
+		t.localK = map[string]gfKind{}
+	}
+	if _, ok := t.localK[name]; !ok {
+		t.localK[name] = k
+		t.locals = append(t.locals, name)
+	}
 }
 
 func (t *gfFn) input(name string) {
@@ -256,9 +306,10 @@ func gfCallName(e ast.Expr) string {
 }
 
 type gfCall struct {
-	kind string // "SCall" | "SExt"
-	name string
-	args []string
+	kind   string // "SCall" | "SExt"
+	name   string
+	args   []string
+	traced bool
 }
 
 // classify a call that is a statement-level call (translated function or external); ok=false when
@@ -302,7 +353,7 @@ func (t *gfFn) classifyCall(c *ast.CallExpr, calls bool) (*gfCall, bool, error) 
 		switch {
 		case t.opaque[root.Name]:
 			kind = "SExt" // method of an opaque parameter / of a field of it
-		case !isVar && gfExternal[name]:
+		case !isVar && (gfExternal[name] || gfOpaqueCtor[name]):
 			kind = "SExt"
 		default:
 			return nil, false, nil
@@ -313,8 +364,14 @@ func (t *gfFn) classifyCall(c *ast.CallExpr, calls bool) (*gfCall, bool, error) 
 	if !calls {
 		return nil, false, t.errf(c, "call of %s where calls are not allowed (under && / ||, in a loop header)", name)
 	}
-	res := &gfCall{kind: kind, name: name}
+	res := &gfCall{kind: kind, name: name, traced: t.f.traced && kind == "SExt"}
+	if gfOpaqueCtor[name] {
+		return res, true, nil // the arguments of an opaque constructor are not modelled
+	}
 	for _, a := range c.Args {
+		if id, ok := a.(*ast.Ident); ok && t.opaque[id.Name] {
+			continue // an opaque argument (ctx) is not passed
+		}
 		s, err := t.expr(a, true)
 		if err != nil {
 			return nil, false, err
@@ -328,6 +385,13 @@ func (c *gfCall) stmt(xs []string) []string {
 	var out []string
 	if gfArmsTimer(c.name) && len(c.args) == 1 {
 		out = append(out, fmt.Sprintf("SAssign [%s] [%s]", gfQ("$timer"), c.args[0]))
+	}
+	if c.traced {
+		// record the call, pass the call number as the last argument, count the call
+		out = append(out, fmt.Sprintf("SAppend %s %s [%s]", gfQ("$trace"), gfQ(c.name), strings.Join(c.args, "; ")))
+		args := append(append([]string{}, c.args...), "EVar "+gfQ("$n"))
+		out = append(out, fmt.Sprintf("%s %s %s [%s]", c.kind, gfStrList(xs), gfQ(c.name), strings.Join(args, "; ")))
+		return append(out, fmt.Sprintf("SAssign [%s] [EBin OAdd (EVar %s) (ELit 1)]", gfQ("$n"), gfQ("$n")))
 	}
 	return append(out, fmt.Sprintf("%s %s %s [%s]", c.kind, gfStrList(xs), gfQ(c.name), strings.Join(c.args, "; ")))
 }
@@ -388,6 +452,9 @@ func (t *gfFn) expr(e ast.Expr, calls bool) (string, error) {
 			sub := &gfFn{f: t.f, name: t.name + " (constant " + x.Name + ")", scopes: []map[string]gfKind{{}}, opaque: map[string]bool{}, insSeen: map[string]bool{}}
 			return sub.expr(c, false)
 		}
+		if code, ok := t.f.errVars[x.Name]; ok {
+			return fmt.Sprintf("ELit %d", code), nil
+		}
 		return "", t.errf(x, "identifier %s is not a variable, parameter or package constant", x.Name)
 	case *ast.SelectorExpr:
 		if v, ok := t.fieldVar(x); ok {
@@ -398,6 +465,10 @@ func (t *gfFn) expr(e ast.Expr, calls bool) (string, error) {
 			if _, isVar := t.lookupVar(id.Name); !isVar {
 				if c, ok := gfQualConst[id.Name+"."+x.Sel.Name]; ok {
 					return "ELit " + c, nil
+				}
+				if gfQualInput[id.Name+"."+x.Sel.Name] {
+					t.input(id.Name + "." + x.Sel.Name)
+					return "EVar " + gfQ(id.Name+"."+x.Sel.Name), nil
 				}
 			}
 		}
@@ -477,6 +548,7 @@ func (t *gfFn) expr(e ast.Expr, calls bool) (string, error) {
 		if isCall {
 			t.tmp++
 			v := fmt.Sprintf("$t%d", t.tmp)
+			t.noteLocal(v, gkScalar)
 			t.pre = append(t.pre, c.stmt([]string{v})...)
 			return "EVar " + gfQ(v), nil
 		}
@@ -493,7 +565,13 @@ func (t *gfFn) expr(e ast.Expr, calls bool) (string, error) {
 			if len(x.Args) == 1 {
 				return t.expr(x.Args[0], calls)
 			}
-		case "fmt.Errorf", "errors.New":
+		case "recover":
+			// a panic is the outcome Panic of IMP and is not recovered there: on every path that IMP continues
+			// recover() returns nil
+			if len(x.Args) == 0 {
+				return "ELit 0", nil
+			}
+		case "fmt.Errorf", "errors.New", "errors.Errorf":
 			for _, a := range x.Args {
 				if !gfPure(a) {
 					return "", t.errf(a, "argument of %s is not a plain value", name)
@@ -580,6 +658,9 @@ func (t *gfFn) retTuple(vals []string) string {
 	}
 	if t.timer {
 		all = append(all, "EVar "+gfQ("$timer"))
+	}
+	if t.f.traced {
+		all = append(all, "EVar "+gfQ("$n"), "EVar "+gfQ("$trace"))
 	}
 	return "SReturn [" + strings.Join(all, "; ") + "]"
 }
@@ -681,6 +762,33 @@ func (t *gfFn) stmt(st ast.Stmt) ([]string, error) {
 				return append(t.takePre(), fmt.Sprintf("SAppend %s %s [%s]", gfQ(id.Name), gfQ(gfCallName(ctor.Fun)), strings.Join(args, "; "))), nil
 			}
 		}
+		// x := func() T { ... }()   (immediately invoked func literal without parameters: inlined)
+		if len(x.Lhs) == 1 && len(x.Rhs) == 1 {
+			if c, ok := x.Rhs[0].(*ast.CallExpr); ok {
+				if fl, ok := c.Fun.(*ast.FuncLit); ok {
+					return t.inlineClosure(x, fl, c, define)
+				}
+			}
+		}
+		// w := pkg.NewOpaque(args): w is opaque from here on
+		if define && len(x.Lhs) == 1 && len(x.Rhs) == 1 {
+			if c, ok := x.Rhs[0].(*ast.CallExpr); ok && gfOpaqueCtor[gfCallName(c.Fun)] {
+				id, ok := x.Lhs[0].(*ast.Ident)
+				if !ok {
+					return nil, t.errf(x, "unsupported target of an opaque constructor")
+				}
+				call, isCall, err := t.classifyCall(c, true)
+				if err != nil || !isCall {
+					return nil, t.errf(x, "unsupported opaque constructor call")
+				}
+				if _, exists := t.lookupVar(id.Name); exists {
+					return nil, t.errf(x, "declaration of %s shadows a variable of an enclosing scope", id.Name)
+				}
+				t.scopes[len(t.scopes)-1][id.Name] = gkOpaque
+				t.opaque[id.Name] = true
+				return append(t.takePre(), call.stmt(nil)...), nil
+			}
+		}
 		// a, b := f(...)   /  x := f(...)   with f translated or external
 		if len(x.Rhs) == 1 {
 			if c, ok := x.Rhs[0].(*ast.CallExpr); ok {
@@ -726,6 +834,9 @@ func (t *gfFn) stmt(st ast.Stmt) ([]string, error) {
 		if !ok {
 			return nil, t.errf(x, "unsupported expression statement")
 		}
+		if gfIsLogCall(gfCallName(c.Fun)) {
+			return nil, nil
+		}
 		call, isCall, err := t.classifyCall(c, true)
 		if err != nil {
 			return nil, err
@@ -745,7 +856,8 @@ func (t *gfFn) stmt(st ast.Stmt) ([]string, error) {
 			}
 			out = append(out, s...)
 		}
-		c, err := t.expr(x.Cond, true)
+		insBefore := len(t.ins)
+		c, err := t.condExpr(x.Cond)
 		if err != nil {
 			return nil, err
 		}
@@ -762,6 +874,14 @@ func (t *gfFn) stmt(st ast.Stmt) ([]string, error) {
 			}
 			el = gfSeq(s)
 		}
+		if t.f.traced && th == "SSkip" && el == "SSkip" && !gfHasCall(x.Cond) {
+			// nothing is left of the statement (its branches only logged): the condition is not read either
+			for _, n := range t.ins[insBefore:] {
+				delete(t.insSeen, n)
+			}
+			t.ins = t.ins[:insBefore]
+			return out, nil
+		}
 		return append(out, fmt.Sprintf("SIf (%s)\n(%s)\n(%s)", c, th, el)), nil
 	case *ast.ForStmt:
 		t.push()
@@ -775,16 +895,30 @@ func (t *gfFn) stmt(st ast.Stmt) ([]string, error) {
 			out = append(out, s...)
 		}
 		c := "ELit 1"
+		var condPre []string
 		if x.Cond != nil {
-			s, err := t.expr(x.Cond, false)
-			if err != nil {
-				return nil, err
+			if t.f.traced && gfHasCall(x.Cond) {
+				// for cond-with-calls { body }  =  for { calls; if cond { body } else { break } }
+				s, err := t.condExpr(x.Cond)
+				if err != nil {
+					return nil, err
+				}
+				condPre = append(t.takePre(), s)
+			} else {
+				s, err := t.expr(x.Cond, false)
+				if err != nil {
+					return nil, err
+				}
+				c = s
 			}
-			c = s
 		}
 		body, err := t.block(x.Body.List)
 		if err != nil {
 			return nil, err
+		}
+		if condPre != nil {
+			cond := condPre[len(condPre)-1]
+			body = gfSeq(append(condPre[:len(condPre)-1], fmt.Sprintf("SIf (%s)\n(%s)\n(SBreak)", cond, body)))
 		}
 		post := "SSkip"
 		if x.Post != nil {
@@ -810,6 +944,37 @@ func (t *gfFn) stmt(st ast.Stmt) ([]string, error) {
 		}
 		return nil, t.errf(x, "unsupported branch statement %s", x.Tok)
 	case *ast.ReturnStmt:
+		if t.closure != nil {
+			return nil, t.errf(x, "return inside a func literal at an unsupported place (only `if c { ...; return e }` without else and a final return)")
+		}
+		if len(t.fnDefers) > 0 {
+			// return e  =  results = e ; deferred statements ; return results
+			if len(t.named) != t.nres {
+				return nil, t.errf(x, "deferred statements need named results")
+			}
+			var out []string
+			if len(x.Results) != 0 {
+				if len(x.Results) != t.nres {
+					return nil, t.errf(x, "return of %d values from a function with %d results", len(x.Results), t.nres)
+				}
+				var vals, names []string
+				for i, r := range x.Results {
+					s, err := t.expr(r, true)
+					if err != nil {
+						return nil, err
+					}
+					vals = append(vals, s)
+					names = append(names, gfQ(t.named[i]))
+				}
+				out = append(t.takePre(), fmt.Sprintf("SAssign [%s] [%s]", strings.Join(names, "; "), strings.Join(vals, "; ")))
+			}
+			out = append(out, t.fnDefers...)
+			var vals []string
+			for _, n := range t.named {
+				vals = append(vals, "EVar "+gfQ(n))
+			}
+			return append(out, t.retTuple(vals)), nil
+		}
 		if len(x.Results) == 0 {
 			var vals []string
 			for _, n := range t.named {
@@ -841,6 +1006,21 @@ func (t *gfFn) stmt(st ast.Stmt) ([]string, error) {
 			vals = append(vals, s)
 		}
 		return append(t.takePre(), t.retTuple(vals)), nil
+	case *ast.DeferStmt:
+		// function level only (the first statements of the body): defer func() { ... }()
+		fl, ok := x.Call.Fun.(*ast.FuncLit)
+		if !ok || len(x.Call.Args) != 0 || len(fl.Type.Params.List) != 0 || len(t.scopes) != 1 || t.closure != nil || !t.f.traced {
+			return nil, t.errf(x, "defer is supported only as a function-level `defer func() { ... }()` (traced targets) and inside an inlined func literal")
+		}
+		if gfHasReturn(fl.Body) {
+			return nil, t.errf(x, "return inside a deferred func literal")
+		}
+		b, err := t.block(fl.Body.List)
+		if err != nil {
+			return nil, err
+		}
+		t.fnDefers = append([]string{b}, t.fnDefers...)
+		return nil, nil
 	case *ast.SelectStmt:
 		// the input "$sel<k>" = index (source order) of the clause that fires
 		k := t.nsel
@@ -891,6 +1071,214 @@ func (t *gfFn) stmt(st ast.Stmt) ([]string, error) {
 		return []string{s}, nil
 	}
 	return nil, t.errf(st, "unsupported statement %T", st)
+}
+
+func gfHasCall(e ast.Node) bool {
+	found := false
+	ast.Inspect(e, func(n ast.Node) bool {
+		if c, ok := n.(*ast.CallExpr); ok {
+			switch gfCallName(c.Fun) {
+			case "len", "int", "int64", "time.Duration":
+			default:
+				found = true
+			}
+		}
+		return !found
+	})
+	return found
+}
+
+func gfHasReturn(e ast.Node) bool {
+	found := false
+	ast.Inspect(e, func(n ast.Node) bool {
+		if _, ok := n.(*ast.FuncLit); ok && n != e {
+			return false
+		}
+		if _, ok := n.(*ast.ReturnStmt); ok {
+			found = true
+		}
+		return !found
+	})
+	return found
+}
+
+// condExpr translates a condition.  Calls on the right of && / || (refused by expr, since hoisting them would
+// evaluate them unconditionally) are supported in traced targets by a temporary:
+//	a || b   =   $c = a ; if !$c { calls of b ; $c = b }        a && b   =   $c = a ; if $c { calls of b ; $c = b }
+// (the statements go to t.pre, the value of the condition is `$c`).
+func (t *gfFn) condExpr(e ast.Expr) (string, error) {
+	if p, ok := e.(*ast.ParenExpr); ok {
+		return t.condExpr(p.X)
+	}
+	be, ok := e.(*ast.BinaryExpr)
+	if !ok || (be.Op != token.LAND && be.Op != token.LOR) || !gfHasCall(be.Y) || !t.f.traced {
+		return t.expr(e, true)
+	}
+	a, err := t.condExpr(be.X)
+	if err != nil {
+		return "", err
+	}
+	t.nck++
+	v := fmt.Sprintf("$c%d", t.nck)
+	t.noteLocal(v, gkScalar)
+	t.pre = append(t.pre, fmt.Sprintf("SAssign [%s] [%s]", gfQ(v), a))
+	outer := t.takePre()
+	b, err := t.condExpr(be.Y)
+	if err != nil {
+		return "", err
+	}
+	inner := append(t.takePre(), fmt.Sprintf("SAssign [%s] [%s]", gfQ(v), b))
+	guard := "EVar " + gfQ(v)
+	if be.Op == token.LOR {
+		guard = "ENot (" + guard + ")"
+	}
+	t.pre = append(outer, fmt.Sprintf("SIf (%s)\n(%s)\n(SSkip)", guard, gfSeq(inner)))
+	return "EVar " + gfQ(v), nil
+}
+
+// inlineClosure: x := func() T { body }()
+func (t *gfFn) inlineClosure(as *ast.AssignStmt, fl *ast.FuncLit, c *ast.CallExpr, define bool) ([]string, error) {
+	if !t.f.traced || len(c.Args) != 0 || len(fl.Type.Params.List) != 0 || fl.Type.Results == nil || len(fl.Type.Results.List) != 1 || t.closure != nil {
+		return nil, t.errf(as, "unsupported func literal (only `x := func() T { ... }()` in traced targets)")
+	}
+	target, err := t.lhs(as.Lhs[0], define, gkScalar)
+	if err != nil {
+		return nil, err
+	}
+	t.closure = &gfClosure{target: target}
+	defer func() { t.closure = nil }()
+	t.push()
+	defer t.pop()
+	out, done, err := t.closureList(fl.Body.List)
+	if err != nil {
+		return nil, err
+	}
+	if !done {
+		return nil, t.errf(fl, "func literal does not end in a return")
+	}
+	return out, nil
+}
+
+// closureList translates the statements of an inlined func literal; done = the list always returns
+func (t *gfFn) closureList(list []ast.Stmt) ([]string, bool, error) {
+	var out []string
+	for i, st := range list {
+		switch x := st.(type) {
+		case *ast.ReturnStmt:
+			if len(x.Results) != 1 {
+				return nil, false, t.errf(x, "return of %d values from an inlined func literal", len(x.Results))
+			}
+			cl := t.closure
+			t.closure = nil
+			v, err := t.expr(x.Results[0], true)
+			t.closure = cl
+			if err != nil {
+				return nil, false, err
+			}
+			out = append(out, t.takePre()...)
+			out = append(out, fmt.Sprintf("SAssign [%s] [%s]", gfQ(cl.target), v))
+			out = append(out, cl.defers...)
+			return out, true, nil
+		case *ast.DeferStmt:
+			// defer f(args) with plain variables as arguments (evaluated now = evaluated at the return, as
+			// long as they are not assigned in between, which is checked)
+			for _, a := range x.Call.Args {
+				id, ok := a.(*ast.Ident)
+				if !ok {
+					return nil, false, t.errf(x, "argument of a deferred call is not a plain variable")
+				}
+				for _, later := range list[i+1:] {
+					if gfAssigns(later, id.Name) {
+						return nil, false, t.errf(x, "argument %s of a deferred call is assigned afterwards", id.Name)
+					}
+				}
+			}
+			cl := t.closure
+			t.closure = nil
+			call, isCall, err := t.classifyCall(x.Call, true)
+			t.closure = cl
+			if err != nil {
+				return nil, false, err
+			}
+			if !isCall || call.kind != "SExt" || len(t.pre) != 0 {
+				return nil, false, t.errf(x, "deferred call is not a plain external call")
+			}
+			cl.defers = append(call.stmt(nil), cl.defers...)
+		case *ast.IfStmt:
+			if !gfHasReturn(x.Body) && (x.Else == nil || !gfHasReturn(x.Else)) {
+				cl := t.closure
+				t.closure = nil
+				s, err := t.stmt(x)
+				t.closure = cl
+				if err != nil {
+					return nil, false, err
+				}
+				out = append(out, s...)
+				continue
+			}
+			if x.Else != nil || x.Init != nil {
+				return nil, false, t.errf(x, "if with a return inside an inlined func literal must have no init and no else")
+			}
+			cl := t.closure
+			t.closure = nil
+			c, err := t.condExpr(x.Cond)
+			t.closure = cl
+			if err != nil {
+				return nil, false, err
+			}
+			out = append(out, t.takePre()...)
+			// the deferred calls registered inside the then-branch do not outlive it: refused
+			nd := len(cl.defers)
+			t.push()
+			th, done, err := t.closureList(x.Body.List)
+			t.pop()
+			if err != nil {
+				return nil, false, err
+			}
+			if !done || len(cl.defers) != nd {
+				return nil, false, t.errf(x, "then-branch with a return must end in a return and must not defer")
+			}
+			rest, rdone, err := t.closureList(list[i+1:])
+			if err != nil {
+				return nil, false, err
+			}
+			out = append(out, fmt.Sprintf("SIf (%s)\n(%s)\n(%s)", c, gfSeq(th), gfSeq(rest)))
+			return out, rdone, nil
+		default:
+			if gfHasReturn(st) {
+				return nil, false, t.errf(st, "return nested in %T inside an inlined func literal", st)
+			}
+			cl := t.closure
+			t.closure = nil
+			s, err := t.stmt(st)
+			t.closure = cl
+			if err != nil {
+				return nil, false, err
+			}
+			out = append(out, s...)
+		}
+	}
+	return out, false, nil
+}
+
+func gfAssigns(n ast.Node, name string) bool {
+	found := false
+	ast.Inspect(n, func(m ast.Node) bool {
+		switch x := m.(type) {
+		case *ast.AssignStmt:
+			for _, l := range x.Lhs {
+				if id, ok := l.(*ast.Ident); ok && id.Name == name {
+					found = true
+				}
+			}
+		case *ast.IncDecStmt:
+			if id, ok := x.X.(*ast.Ident); ok && id.Name == name {
+				found = true
+			}
+		}
+		return !found
+	})
+	return found
 }
 
 // gfIndent re-indents the parenthesised multi-line output
@@ -1007,6 +1395,15 @@ func (f *gfFile) translate(key string) (string, error) {
 		}
 		body = append(body, s...)
 	}
+	if f.traced {
+		// ghost variables of the trace; every local variable exists (zero) from the start, so the shape of the
+		// environment does not depend on the path taken
+		init = append(init, fmt.Sprintf("SAssign [%s] [ELit 0]", gfQ("$n")), fmt.Sprintf("SAssign [%s] [ENoRecs]", gfQ("$trace")))
+		for _, n := range t.locals {
+			zero := map[gfKind]string{gkScalar: "ELit 0", gkArray: "EStr []", gkRecs: "ENoRecs"}[t.localK[n]]
+			init = append(init, fmt.Sprintf("SAssign [%s] [%s]", gfQ(n), zero))
+		}
+	}
 	all := append(init, body...)
 	params := append(append([]string{}, t.params...), t.ins...)
 	coq := "gen_" + strings.ReplaceAll(key, ".", "_")
@@ -1020,6 +1417,9 @@ func (f *gfFile) translate(key string) (string, error) {
 	rets = append(rets, t.outs...)
 	if t.timer {
 		rets = append(rets, "$timer")
+	}
+	if f.traced {
+		rets = append(rets, "$n", "$trace")
 	}
 	fmt.Fprintf(&b, "Definition %s_returns : list string := %s.\n", coq, gfStrList(rets))
 	if len(t.selects) > 0 {
@@ -1042,7 +1442,8 @@ func genGoFn(what, repo, out string) error {
 		n++
 		fset := token.NewFileSet()
 		path := filepath.Join(repo, tg.file)
-		gf := &gfFile{fset: fset, consts: map[string]ast.Expr{}, decls: map[string]*ast.FuncDecl{}, inProg: map[string]bool{}}
+		gf := &gfFile{fset: fset, consts: map[string]ast.Expr{}, decls: map[string]*ast.FuncDecl{}, inProg: map[string]bool{}, errVars: map[string]int{}, traced: tg.traced}
+		var errNames []string
 		// package-level constants of the whole directory, functions of the target file
 		pkgs, err := parser.ParseDir(fset, filepath.Dir(path), func(fi os.FileInfo) bool { return !strings.HasSuffix(fi.Name(), "_test.go") }, 0)
 		if err != nil {
@@ -1053,6 +1454,18 @@ func genGoFn(what, repo, out string) error {
 				for _, d := range file.Decls {
 					switch x := d.(type) {
 					case *ast.GenDecl:
+						if x.Tok == token.VAR {
+							// var name = errors.New("..."): a distinct non-nil error value
+							for _, sp := range x.Specs {
+								vs := sp.(*ast.ValueSpec)
+								if len(vs.Names) == 1 && len(vs.Values) == 1 {
+									if c, ok := vs.Values[0].(*ast.CallExpr); ok && gfCallName(c.Fun) == "errors.New" {
+										errNames = append(errNames, vs.Names[0].Name)
+									}
+								}
+							}
+							continue
+						}
 						if x.Tok != token.CONST {
 							continue
 						}
@@ -1088,6 +1501,13 @@ func genGoFn(what, repo, out string) error {
 			}
 		}
 		fmt.Fprintf(&b, "(* ---- %s ---- *)\n", tg.file)
+		sort.Strings(errNames)
+		for i, n := range errNames {
+			gf.errVars[n] = 1001 + i
+			if tg.traced {
+				fmt.Fprintf(&b, "Definition gen_err_%s : Z := %d.\n", n, 1001+i)
+			}
+		}
 		var entries []string
 		for _, fn := range tg.funcs {
 			s, err := gf.translate(fn)
